@@ -24,8 +24,8 @@ sys.path.insert(0, os.path.join(os.path.dirname(os.path.dirname(os.path.abspath(
 from vlib import OkV, Internal, Diag, coq_str, coq_z, REPO  # noqa: E402
 
 LEVEL = 'proof'
-FLAGS = ('fx_init', 'fx_float', 'fx_fwd', 'fx_ops')
-KNOWN = ('volatile', 'copyblob', 'undefined', 'fwd_double_use', 'fwd_call_args')
+FLAGS = ('fx_init', 'fx_float', 'fx_fwd', 'fx_ops', 'fx_ru_generic', 'fx_ru_phi', 'fx_ru_call')
+KNOWN = ('volatile', 'copyblob', 'undefined')
 
 
 # ---------------------------------------------------------------- helpers on the implementation
@@ -41,8 +41,9 @@ def real_read(text):
     return read_module(io.StringIO(text))
 
 
-def canon(t):
-    """canonical structure modulo what the text is not meant to carry: the order of phi inputs"""
+def canon(t, ignore_volatile=False):
+    """canonical structure modulo what the text is not meant to carry: the order of phi inputs
+    (ignore_volatile: also the volatile flags, a known finding that would mask later differences)"""
     name, exts, gvars, funcs = t
     out = []
     for f in funcs:
@@ -52,13 +53,15 @@ def canon(t):
             for i in b[2]:
                 if i[0] == 'phi':
                     i = i[:4] + (sorted(i[4]),)
+                if ignore_volatile and i[0] in ('load', 'store'):
+                    i = i[:-1] + (False,)
                 ins.append(i)
             blocks.append((b[0], b[1], ins))
         out.append(f[:4] + (blocks,))
     return (name, exts, gvars, out)
 
 
-def oracle(irimport, m, sem=None):
+def oracle(irimport, m, sem=None, ignore_volatile=False):
     """None when print/read reproduces the module, else a short description (model independent)"""
     try:
         t1 = real_text(m)
@@ -69,8 +72,8 @@ def oracle(irimport, m, sem=None):
     except Exception as ex:   # noqa: BLE001
         return 'read raises %s: %s' % (type(ex).__name__, str(ex)[:80])
     try:
-        a = canon(irimport.module_to_py(m))
-        b = canon(irimport.module_to_py(m2, allow_dangling=True))
+        a = canon(irimport.module_to_py(m), ignore_volatile)
+        b = canon(irimport.module_to_py(m2, allow_dangling=True), ignore_volatile)
     except irimport.NotRepresentable as ex:
         return 'not representable: %s' % ex
     d = irimport.diff_py(a, b)
@@ -115,10 +118,12 @@ def classify(d):
         return 'rol-ror-not-read'
     if 'behaviour differs' in d:
         return 'behaviour-differs'
-    if 'KeyError: \'memcpy\'' in d or "KeyError: 'memcpy'" in d:
+    if "KeyError: 'memcpy'" in d:
         return 'copyblob-not-read'
-    if 'KeyError' in d:
+    if 'KeyError: <ppci.ir.Undefined' in d:
         return 'forward-double-use-replace_use'
+    if 'KeyError' in d:
+        return 'undefined-instruction-not-read'
     if 'unres' in d:
         return 'forward-call-argument-not-replaced'
     if 'TypeError' in d or 'ValueError: Type mismatch' in d or 'Type mismatch' in d:
@@ -129,6 +134,11 @@ def classify(d):
         return 'volatile-lost'
     if 'bytes' in d or "'ref'" in d or ('None' in d and 'gvar' in d):
         return 'variable-value-lost'
+    if d.startswith('module'):
+        tags = re.findall(r'<([a-z]+)>', d)
+        return 'structural-difference' + (' in ' + tags[-1] if tags else '')
+    if d.startswith('text differs'):
+        return 'text-differs-after-reread'
     return 'other: ' + d[:70]
 
 
@@ -222,13 +232,22 @@ def witnesses(ir):
     b.add_instruction(ir.Undefined('u', ir.i32))
     b.add_instruction(ir.Exit())
     out['undefined'] = [m]
-    out['fwd_double_use'] = [fwd(lambda m, x: [ir.Store(x, x)], ir.ptr)]
+    # the replace_use defects of ppci/ir.py (repaired in /repo: 2d6a9c1, e4350a7, 283ca09)
+    out['fx_ru_generic'] = [fwd(lambda m, x: [ir.Store(x, x)], ir.ptr)]
+
+    def phi2(m, x):
+        f = m.functions[0]
+        p = ir.Phi('y', ir.i32)
+        p.set_incoming(f.blocks[0], x)
+        p.set_incoming(f.blocks[2], x)
+        return [p]
+    out['fx_ru_phi'] = [fwd(phi2, ir.i32)]
 
     def call2(m, x):
         e = ir.ExternalProcedure('xp', [ir.i32, ir.i32])
         m.add_external(e)
         return [ir.ProcedureCall(e, [x, x])]
-    out['fwd_call_args'] = [fwd(call2, ir.i32)]
+    out['fx_ru_call'] = [fwd(call2, ir.i32)]
     return out
 
 
@@ -406,11 +425,9 @@ def run(ctx):
     logging.getLogger('verifier').setLevel(logging.ERROR)
 
     regen(ctx)
-    if os.path.exists(os.path.join(os.path.dirname(os.path.dirname(os.path.dirname(os.path.abspath(__file__)))),
-                                   'coq', 'Props', 'C15.v')):
-        ok, _ = ctx.build(['Proofs/C15_irtext.vo'])
-        if ok:
-            ctx.check_props('Props/C15.v')
+    ok, _ = ctx.build(['Proofs/C15_irtext.vo'])
+    if ok:
+        ctx.check_props('Props/C15.v')
 
     # ---- 1. witnesses: replayed on the implementation on every run
     wit = witnesses(ir)
@@ -465,8 +482,11 @@ def search(ctx, deep=False):
     sem = sem_compare(irgen, irsem_py)
     classes = {}
     for k in range(n):
-        m = irgen.gen_module(rng, size=1 + k % 4, features=None, name='s%d' % k)
-        d = oracle(irimport, m, sem=sem if k % 5 == 0 else None)
+        # odd k: without the instruction kinds / flags that are known findings, so that the rest of such modules is
+        # compared too (a module that cannot be read at all hides every other difference)
+        feats = None if k % 2 == 0 else tuple(f for f in irgen.ALL_FEATURES if f not in ('copyblob', 'undefined'))
+        m = irgen.gen_module(rng, size=1 + k % 4, features=feats, name='s%d' % k)
+        d = oracle(irimport, m, sem=sem if k % 5 == 0 else None, ignore_volatile=(k % 2 == 1))
         if d is None:
             continue
         c = classify(d)
@@ -514,8 +534,7 @@ def corpus_modules(irgen, irimport, count=60):
         feats = CORPUS_FEATURES if k % 2 else tuple(f for f in CORPUS_FEATURES if f != 'shuffle')
         m = irgen.gen_module(rng, size=1 + k % 3, features=feats, name='c%d' % k)
         k += 1
-        if not forward_double_use(irimport.module_to_py(m)):
-            mods.append(m)
+        mods.append(m)   # incl. modules with a double use of a later-defined value (replace_use is repaired)
     return mods
 
 
@@ -551,8 +570,47 @@ def replay_witness(k):
         print(k, '->', oracle(irimport, m))
 
 
-RULE = 'TODO'
-EXPLANATION = 'TODO'
-TRUSTED = []
-ASSUMPTIONS = []
-MANIFEST = {'text': 'TODO', 'note': 'TODO', 'technique': 'hand model + Coq proof + differential correspondence'}
+RULE = ('modules from tools/gen/irgen.py (seeded; all features incl. shuffled block order, volatile, initialised globals, '
+        'copyblob, undefined, float bit patterns incl. inf/nan/huge/tiny, big and negative constants, rol/ror, ~) plus '
+        'hand-made witnesses; per module: one printer case (real text vs model text, line by line), one lexer case (real '
+        'tokenize vs model lex), one reader case (real read_module vs model read_text on the real text), and for every '
+        'third module a reader case on a mutated text; non-trivial = module with at least one function whose real text is '
+        'read back successfully')
+EXPLANATION = ('Coq theorems about Model.IrText (hand model of Writer + __str__ and of tokenize + Reader + name resolution; '
+               'tcfg_fixed = /repo + fixes/C15-*.diff): 6 refutations of the round trip for the code as it is (initial values '
+               'of globals lost; exponent-form and non-finite floats, rol/ror, ~ unreadable; operands defined later in the '
+               'text rejected), 5 refutations that remain (volatile lost, CopyBlob / Undefined unreadable, two replace_use '
+               'defects of ir.py), each replayed on the implementation; unbounded: every printable instruction kind, '
+               'statement, block and function/procedure definition is parsed back from its own tokens (16 per-kind theorems + '
+               'statement/block/function theorems); whole modules (lexer layer '
+               'lex(print_text m) = print_tokens m, reader result = normal form of m, textual fixpoint) on a generated '
+               'corpus of 60 modules / 87 functions (bounded, vm_compute). NOT proved: the unbounded module level (externals, variable '
+               'declarations, item list) of the parser, the lexer layer and the name resolution with forward-reference patching; they are covered '
+               'by the bounded theorem and the per-run correspondence only. InlineAsm/JumpTable are outside Spec.IRSyntax.')
+TRUSTED = ['hand model coq/Model/IrText.v (cross-checked against ppci.irutils on every run: text, tokens, reader result)',
+           'the model reader is lex ; parse ; resolve while Python interleaves them lazily: for texts with several faults '
+           'only the fact that reading fails is compared',
+           'tools/irimport.py (ppci.ir objects -> Coq syntax; ids in print order)',
+           'CPython: float(repr(x)) == x bit for bit for every non-NaN float, repr(nan) == "nan" reads back as the '
+           'canonical quiet NaN (float constants are carried as bit patterns, their repr text is supplied per case)',
+           'str(int)/int(str) are inverse (the model prints integers with Coq DecimalString)',
+           'Model.IrJson.patch_instr (ir.replace_use) shared with C16']
+ASSUMPTIONS = ['well-formed = Spec.IRSyntax.wf_modul; printable = Model.IrText.printable (names are identifiers '
+               '[A-Za-z][A-Za-z0-9_]*, constructor checks of ppci.ir hold, no CopyBlob/Undefined, phi with at least one input, '
+               'no double use of a later-defined value, rol/ror not applied to a value named like an instruction keyword)',
+               'equality up to what the text is not meant to carry: order of phi inputs (printed sorted by block name); the '
+               'loss of volatile flags is reported as a finding, not hidden',
+               'forward references, lexer and whole modules are covered by the bounded corpus theorem and the '
+               'correspondence, not by an unbounded theorem']
+MANIFEST = {
+    'text': 'proof (partial at module level): the code as it is loses the initial values of globals and cannot read back '
+            'exponent-form / non-finite floats, rol/ror, ~ and operands defined later in the text (6 Coq refutations replayed '
+            'on the implementation, 4 fix diffs); volatile flags, CopyBlob, Undefined and two replace_use defects remain as '
+            'known findings (5 refutations). On the repaired model Coq proves (unbounded) that every printable instruction '
+            'kind, statement, block and function definition is parsed back from its own tokens, and checks the whole round trip (lexer, reader, '
+            'normal form, identical re-print) by vm_compute on a generated corpus of 60 modules (bounded)',
+    'note': 'trusted: hand model Model/IrText.v (differentially checked against Writer/tokenize/Reader on ~550 cases per '
+            'quick run), irimport, CPython float repr. Not proved: unbounded module-level parser (externals, variables, item list), lexer layer, name '
+            'resolution with forward-reference patching.',
+    'technique': 'hand model + Coq proof + differential correspondence',
+}
